@@ -185,7 +185,8 @@ Definition coll_point_centroid (lv : list (geomT Q)) : xy :=
 Section WithSqrt.
   Variable sq : Q -> Q.   (* math.Sqrt *)
 
-  (* geom/xy.go:Length = Sqrt(Dot(w,w)) *)
+  (* geom/xy.go:Length = Sqrt(Dot(w,w)) on the pinned tree, Hypot(X, Y) after fix F120: in exact
+     arithmetic both are the root of X*X + Y*Y (the fix only changes float range behaviour) *)
   Definition xy_len (d : xy) : Q := sq (fst d * fst d + snd d * snd d).
 
   (* geom/type_line_string.go:Length - delta := xyA.Sub(xyB); sum += delta.Length() *)
@@ -213,8 +214,8 @@ Section WithSqrt.
          end.
 
   (* geom/type_line_string.go:sumCentroidAndLengthOfLineString with type_sequence.go:getLine
-     (i = 0 and zero-length segments are skipped), line.go:length (a.distanceTo(b) =
-     Sqrt of (b.Sub(a)).Dot(same)) and line.go:centroid *)
+     (i = 0 and zero-length segments are skipped), line.go:length (a.distanceTo(b) = length of
+     b.Sub(a)) and line.go:centroid *)
   Fixpoint sumcl_loop (sumXY : xy) (sumLen : Q) (a : xy) (rest : list xy) : xy * Q :=
     match rest with
     | [] => (sumXY, sumLen)
